@@ -142,7 +142,21 @@ def make_matrix(desc):
         return sps.csr_matrix(A)
     if sp in ("csc_full", "csr_full"):
         return full_structure(A, sp[:3])
-    return A
+    return as_layout(A, desc.get("layout", "C"))
+
+
+def as_layout(A, layout):
+    """ memory layout of a dense matrix as a caller may hold it: C-ordered, Fortran-ordered (scipy.io.loadmat, LAPACK results) or
+    a transposed view of a C-ordered array.  LAPACK wrappers work in place on Fortran-ordered data when allowed to overwrite. """
+    if not isinstance(A, np.ndarray) or A.ndim != 2 or layout == "C":
+        return A
+    if layout == "F":
+        return np.asfortranarray(A)
+    return np.ascontiguousarray(A.T).T
+
+
+def same_layout_copy(A):
+    return A.copy(order="K") if isinstance(A, np.ndarray) else A.copy()
 
 
 def full_structure(A, fmt):
